@@ -180,8 +180,16 @@ type Expect struct {
 	Unchecked bool
 }
 
-func (e *Expect) Apply(m *Model)            { if e.apply != nil { e.apply(m, -1) } }
-func (e *Expect) ApplyPrefix(m *Model, n int) { if e.apply != nil { e.apply(m, n) } }
+func (e *Expect) Apply(m *Model) {
+	if e.apply != nil {
+		e.apply(m, -1)
+	}
+}
+func (e *Expect) ApplyPrefix(m *Model, n int) {
+	if e.apply != nil {
+		e.apply(m, n)
+	}
+}
 
 func fail(classes ...string) *Expect { return &Expect{OK: false, ErrAny: classes, FailAt: -1} }
 
